@@ -7,6 +7,8 @@ import (
 	"fmt"
 	"strings"
 
+	"verifharness/internal/hx"
+
 	"github.com/Ptt-official-app/go-pttbbs/ptttype"
 )
 
@@ -192,9 +194,91 @@ func generate() {
 					e := readEntries[(k+4)%len(readEntries)] // ReadPost first
 					emit(fmt.Sprintf("xread %s %d %d %d 0 %d 0 0 0", e, pair[0], pair[1], ulevel, uidReader))
 				}
+				// the same while the board table is marked busy (reload / sort in progress): the refusal must not depend on it
+				for k := range readEntries {
+					e := readEntries[(k+4)%len(readEntries)]
+					emit(fmt.Sprintf("xreadb %s %d %d %d 0 %d 0 0 0", e, pair[0], pair[1], ulevel, uidReader))
+				}
 			}
 			nrows++
 		}
+	}
+	// ---- named moderators: user ids x moderator strings built for trouble (ptt layer) ----------------------------
+	if !bbsLayer {
+		plain := P(ptttype.PERM_BASIC) | P(ptttype.PERM_LOGINOK) | bitHas
+		hiddenMasked := A(ptttype.BRD_HIDE) | A(ptttype.BRD_POSTMASK)
+		nlist := func(k int, id, bm []byte) {
+			f := targetLists[k%len(targetLists)]
+			emit(fmt.Sprintf("nlist %s %d %d 0 %d 0 0 %s %s", f, bidTarget, plain, uidReader, hx.Hex(id), hx.Hex(bm)))
+		}
+		swapCase := func(s string) string {
+			b := []byte(s)
+			for i, c := range b {
+				switch {
+				case c >= 'a' && c <= 'z':
+					b[i] = c - 32
+				case c >= 'A' && c <= 'Z':
+					b[i] = c + 32
+				}
+			}
+			return string(b)
+		}
+		clip := func(s string, n int) []byte {
+			if len(s) > n {
+				s = s[:n]
+			}
+			return []byte(s)
+		}
+		npairs := 0
+		for _, m := range []string{"Kahou2", "SYSOP", "test0", "a", "Ab1", "abcdefghijkl"} {
+			ids := []string{m, m[:len(m)-1], m[1:], m + "x", "x" + m, swapCase(m), m + m, "", "abcdefghijklm"}
+			if len(m) > 2 {
+				ids = append(ids, m[1:len(m)-1])
+			}
+			o, q := "zz9", "Qq"
+			// a 39-byte field without terminating NUL whose last name is m
+			fill := strings.Repeat("q", 39-len(m)-1)
+			full := fill[:len(fill)/2] + "/" + fill[len(fill)/2+1:] + "/" + m
+			bms := []string{m, m + "/" + o, o + "/" + m, o + "/" + m + "/" + q, m + "2/" + m, o + m + "/" + m, "x" + m + "y/" + m, m + "/",
+				"/" + m, m + "//" + o, o + "/" + m[:len(m)-1], m + "2", m + ".x", m + " x", "[" + m + "]", o + "." + m, m + "\x00/" + o, "", full}
+			emit("reset")
+			emit(fmt.Sprintf("setb %d %d 0", bidTarget, hiddenMasked))
+			for _, id := range ids {
+				for _, bm := range bms {
+					// every pair through every listing / summary / detail function in thorough, through one (rotating) in quick
+					if thorough {
+						for k := range targetLists {
+							nlist(k, clip(id, 13), clip(bm, 39))
+						}
+					} else {
+						nlist(npairs, clip(id, 13), clip(bm, 39))
+					}
+					npairs++
+				}
+			}
+		}
+		nr := 600
+		if thorough {
+			nr = 30000
+		}
+		alpha := []byte("aabA1//. \x00")
+		emit("reset")
+		emit(fmt.Sprintf("setb %d %d 0", bidTarget, hiddenMasked))
+		for i := 0; i < nr; i++ {
+			id := run.R.Bytes(run.R.Intn(4), alpha)
+			if run.R.Intn(3) > 0 {
+				id = run.R.Bytes(1+run.R.Intn(3), []byte("abA1"))
+			}
+			bm := run.R.Bytes(run.R.Intn(9), alpha)
+			if run.R.Intn(2) == 0 {
+				// plant the id somewhere
+				k := run.R.Intn(len(bm) + 1)
+				bm = append(append(append([]byte{}, bm[:k]...), id...), bm[k:]...)
+			}
+			nlist(i, id, clip(string(bm), 39))
+			npairs++
+		}
+		run.Extra["named_pairs"] = npairs
 	}
 	// ---- random words ------------------------------------------------------------------------------
 	nrand := 1500
@@ -263,7 +347,9 @@ func generate() {
 		"read ReadPost 2 17 0 2 0 0 x", "read ReadPost x 17 0 2 0 0 0", "read ReadPost 3 17 0 2 0 0 0", "read ReadPost 2 17 0 3 0 1 0",
 		"read ReadPost 2 17 0 99999999999 0 0 0", "read ReadPost 2 0x11 0 2 0 0 0", "setb 2 0", "setb 3 0 0", "setb 2 -1 0", "setb 2 0 4294967296",
 		"reset now", "consts x", "frobnicate", "xread ReadPost 2 1 17 0 2 0 0 0", "xread ReadPost 1 2 17 0 2 0 0 0", "xread ReadPost 2 3 17 0 2 0 0",
-		"xread LoadHotBoards 2 3 17 0 2 0 0 0", "xread ReadPost 0 3 17 0 2 0 0 0", "read ReadPost 2 17 0 - 0 0 0", "read ReadPost 2 +17 0 2 0 0 0",
+		"xread LoadHotBoards 2 3 17 0 2 0 0 0", "xread ReadPost 0 3 17 0 2 0 0 0", "xreadb ReadPost 2 1 17 0 2 0 0 0", "xreadc ReadPost 2 3 17 0 2 0 0 0",
+		"nlist LoadBoardDetail 2 17 0 2 0 0 6 61", "nlist LoadBoardDetail 2 17 0 2 0 0 zz 61", "nlist ReadPost 2 17 0 2 0 0 61 61",
+		"nlist LoadBoardDetail 2 17 0 2 0 0 6161616161616161616161616161 61", "nlist LoadBoardDetail 2 17 0 2 0 0 61", "read ReadPost 2 17 0 - 0 0 0", "read ReadPost 2 +17 0 2 0 0 0",
 	}
 	for _, m := range malformed {
 		emit(m)
